@@ -536,13 +536,14 @@ def break_letters(rng, s, style=None):
 
 # -------------------------------------------------------------------------------------- derivations
 class Fact:
-    __slots__ = ('term', 'tree', 'dv', 'depth')
+    __slots__ = ('term', 'tree', 'dv', 'depth', 'rule')
 
-    def __init__(self, term, tree, dv=frozenset(), depth=0):
+    def __init__(self, term, tree, dv=frozenset(), depth=0, rule=False):
         self.term = term
         self.tree = tree
         self.dv = dv
         self.depth = depth
+        self.rule = rule          # the derivation applies a rule with essential hypotheses (other than mp)
 
 
 class Deriver:
@@ -602,7 +603,8 @@ class Deriver:
                     dv.add(frozenset((s, u)))
         tree = self.pr.apply(ax, sigma, [f.tree for f in hyp_facts])
         d = 1 + max([f.depth for f in hyp_facts], default=0)
-        return Fact(concl, tree, frozenset(dv), d)
+        rule = any(f.rule for f in hyp_facts) or (bool(ax.hyps) and ax is not self.th.rules['mp'])
+        return Fact(concl, tree, frozenset(dv), d, rule)
 
     def pick(self, cands):
         return self.rng.choices(cands, [1 + f.depth * f.depth for f in cands])[0]
@@ -904,7 +906,8 @@ def make_case(rng, nsteps=None, max_rpn=2500, target_label=None, text_style=None
         return None
     # prefer a deep fact among the last ones
     if rng.random() < 0.75:
-        tgt = max(facts, key=lambda f: (f.depth, tree_size(f.tree)))
+        pref = rng.random() < 0.6
+        tgt = max(facts, key=lambda f: (f.rule and pref, f.depth, tree_size(f.tree)))
     else:
         tgt = rng.choice(facts[-max(1, len(facts) // 3):])
     flat = flatten(tgt.tree)
